@@ -45,29 +45,36 @@ pub fn run(seed: u64, ntraces: usize) {
         let mut steps: Vec<Value> = vec![];
         let mut pending: Vec<AsyncCallTxData> = vec![];
         let mut limit: u64 = 0;
+        let mut prev_limit: u64 = 0;
         let mut cur_token: Option<Vec<u8>> = token.clone();
         let flow_focus = r.chance(1, 2);
         let nops = 10 + r.below(14) as usize;
-        for _ in 0..nops {
-            now += match r.below(8) { 0 => EPOCH_TIME, 1 => EPOCH_TIME - (now % EPOCH_TIME), 2 => (EPOCH_TIME - (now % EPOCH_TIME)).saturating_sub(1), _ => r.below(500) };
+        // directed prefix (every third trace): flow one way under a high limit, lower the limit, then a larger transfer the other way
+        let mut forced: Vec<(u64, u64)> = vec![];     // (op kind, amount / limit)
+        if t % 3 == 0 && cur_token.is_some() { forced = if t % 6 == 0 { vec![(2, 40), (1, 40), (2, 8), (0, 40), (0, 8), (0, 1)] } else { vec![(1, 50), (2, 40), (0, 40), (2, 8), (1, 40), (1, 8)] }; }
+        for _ in 0..(nops + forced.len()) {
+            now += if !forced.is_empty() { 1 } else { match r.below(8) { 0 => EPOCH_TIME, 1 => EPOCH_TIME - (now % EPOCH_TIME), 2 => (EPOCH_TIME - (now % EPOCH_TIME)).saturating_sub(1), _ => r.below(500) } };
             w.set_time(now);
             let anyone = r.pick(&users).clone();
-            let k = if flow_focus { *r.pick(&[0u64, 0, 0, 1, 1, 1, 2, 2, 15]) } else if ty == 0 && r.chance(1, 2) { *r.pick(&[12u64, 13, 14, 14, 16, 16, 0, 1, 9, 10, 11]) } else { r.below(17) };
-            let amt = |r: &mut Rng, limit: u64| -> u64 { if limit > 0 { match r.below(6) { 0 => limit, 1 => limit + 1, 2 => limit.saturating_sub(1).max(1), 3 => 1, _ => 1 + r.below(limit + 2) } } else { match r.below(4) { 0 => 0, _ => 1 + r.below(50) } } };
+            let fo = if forced.is_empty() { None } else { Some(forced.remove(0)) };
+            let k = if let Some((fk, _)) = fo { fk } else if flow_focus { *r.pick(&[0u64, 0, 0, 1, 1, 1, 2, 2, 15]) } else if ty == 0 && r.chance(1, 2) { *r.pick(&[12u64, 13, 14, 14, 16, 16, 0, 1, 9, 10, 11]) } else { r.below(17) };
+            let pl = prev_limit;
+            let amt = |r: &mut Rng, limit: u64| -> u64 { if limit > 0 { match r.below(9) { 0 => limit, 1 => limit + 1, 2 => limit.saturating_sub(1).max(1), 3 => 1, 4 => pl.max(1), 5 => pl.saturating_sub(limit).max(1), 6 => 2 * limit, _ => 1 + r.below(limit + 2) } } else { match r.below(4) { 0 => 0, _ => 1 + r.below(50) } } };
             let mut opj; let step;
             match k {
                 0 => { // giveToken
-                    let caller = if r.chance(5, 6) { s.clone() } else { anyone.clone() };
-                    let dest = match r.below(6) { 0 => tmaddr.clone(), _ => r.pick(&users).clone() };
-                    let a = amt(&mut r, limit).max(1);
+                    let caller = if fo.is_some() || r.chance(5, 6) { s.clone() } else { anyone.clone() };
+                    let dest = if fo.is_some() { users[3].clone() } else { match r.below(6) { 0 => tmaddr.clone(), _ => r.pick(&users).clone() } };
+                    let a = if let Some((_, fa)) = fo { fa } else { amt(&mut r, limit).max(1) };
                     step = w.tx(&caller, &tmaddr, "giveToken", vec![dest.to_vec(), big(a)], &bn(0), &[]);
                     opj = json!({"op": "give", "caller": hx(caller.as_bytes()), "dest": hx(dest.as_bytes()), "amount": a.to_string()});
                 }
                 1 => { // takeToken with right / wrong token
-                    let caller = if r.chance(5, 6) { s.clone() } else { anyone.clone() };
-                    let a = amt(&mut r, limit);
+                    let caller = if fo.is_some() || r.chance(5, 6) { s.clone() } else { anyone.clone() };
                     let right = cur_token.clone().unwrap_or(tok.clone());
-                    let (egld, esdt): (u64, Vec<(Vec<u8>, u64, BigUint)>) = match r.below(8) {
+                    // a zero-value ESDT transfer from an account that never held the token is rejected by the debug VM itself
+                    let a = if let Some((_, fa)) = fo { fa } else if right == tok { amt(&mut r, limit) } else { amt(&mut r, limit).max(1) };
+                    let (egld, esdt): (u64, Vec<(Vec<u8>, u64, BigUint)>) = match if fo.is_some() { 7 } else { r.below(8) } {
                         0 => (0, vec![(b"OTHER-abcdef".to_vec(), 0, bn(a))]),
                         1 => (a, vec![]),
                         2 => (0, vec![(right.clone(), 0, bn(a)), (b"OTHER-abcdef".to_vec(), 0, bn(1))]),
@@ -78,10 +85,10 @@ pub fn run(seed: u64, ntraces: usize) {
                         "esdt": esdt.iter().map(|(t, n, v)| json!([hx(t), n, v.to_string()])).collect::<Vec<_>>()});
                 }
                 2 => { // setFlowLimit
-                    let caller = match r.below(4) { 0 => anyone.clone(), 1 => op.clone(), _ => s.clone() };
-                    let l = match r.below(5) { 0 => 0, 1 => limit / 2, _ => 5 + r.below(40) };
+                    let caller = if fo.is_some() { s.clone() } else { match r.below(4) { 0 => anyone.clone(), 1 => op.clone(), _ => s.clone() } };
+                    let l = if let Some((_, fl)) = fo { fl } else { match r.below(6) { 0 => 0, 1 => limit / 2, 2 => (limit / 5).max(1), _ => 5 + r.below(40) } };
                     step = w.tx(&caller, &tmaddr, "setFlowLimit", vec![big(l)], &bn(0), &[]);
-                    if step.res.result_status == 0 { limit = l; }
+                    if step.res.result_status == 0 { prev_limit = limit; limit = l; }
                     opj = json!({"op": "setLimit", "caller": hx(caller.as_bytes()), "limit": l.to_string()});
                 }
                 3 | 4 | 5 => {
